@@ -99,7 +99,8 @@ def _crc_ok_facts(fn, g, node):
                     continue
                 q = notpl(init.get("q") or "")
                 if "crc" in q.lower() and call_args(init) and init.get("k") == "CallExpr":
-                    out.append(call_args(init)[0])           # get_crc(buf)
+                    fed = _crc_fed_args(fn, init)
+                    out.extend(fed if fed else [call_args(init)[0]])           # get_crc(buf)
                 elif init.get("k") == "CXXMemberCallExpr":
                     callee = strip(init["c"][0])
                     if callee and callee.get("n") == "get" and callee.get("c"):
@@ -114,6 +115,25 @@ def _crc_ok_facts(fn, g, node):
                                             same_expr(cal["c"][0], crcobj):
                                         for a in call_args(u):
                                             out.append(a)
+    return out
+
+
+def _crc_fed_args(fn, call):
+    """The arguments of a call to a repo CRC helper that the helper feeds to a CRC object's update()."""
+    prog = getattr(fn, "prog", None)
+    if prog is None:
+        return []
+    out = []
+    for t in prog.call_targets(fn, call):
+        args = call_args(call)
+        for i, p_ in enumerate(t.params):
+            if i >= len(args):
+                continue
+            for u in t.walk():
+                if u.get("k") == "CXXMemberCallExpr" and (strip(u["c"][0]) or {}).get("n") == "update" and \
+                        any(x.get("k") == "DeclRefExpr" and x.get("d") == p_["d"] for a in call_args(u) for x in walk(a)):
+                    out.append(args[i])
+                    break
     return out
 
 
@@ -280,6 +300,16 @@ def rule_crc_gating(prog, fixture=False):
                         recv = (strip(u["c"][0]) or {}).get("c", [None])[0]
                         if recv is not None and any(x.get("k") == "MemberExpr" and x.get("n") == "data" for x in walk(recv)):
                             srcs.append(u["c"][1])
+                # a source given through a never-reassigned local (an iterator `body = buf.begin() + 1`)
+                more = []
+                for s_ in srcs:
+                    for y in walk(s_):
+                        if y.get("k") == "DeclRefExpr" and y.get("dk") == "Var" and \
+                                not any(d_ == y["d"] for x in fn.walk() for d_, _ in flow.written_decls(x)):
+                            for v in fn.walk():
+                                if v.get("k") == "VarDecl" and v.get("d") == y["d"] and v.get("c"):
+                                    more.append(v["c"][0])
+                srcs = srcs + more
                 for b in crc_bufs:
                     if any(x.get("k") == "MemberExpr" and x.get("n") == "data" and pushed is not None and
                            any(y.get("k") == "DeclRefExpr" and y.get("d") == pushed.get("d") for y in walk(x))
